@@ -513,7 +513,10 @@ Example seq_example :
     seq_phase 2 ex_cmd 1 [1; 1; 1] (init true) = Some (s1, r1) /\ seq_phase 2 ex_cmd 1 r1 s1 = Some (s2, r2) /\
     log s2 = [DErr; DErr; DErr; DOk] /\ enq s2 = [(7, 3, 1)] /\ drops s2 = 1%nat /\
     law_amo 2 ex_cmd true (log s2) (seen s2) (enq s2) (present s2) (retries s2) true = true.
-Proof. do 4 eexists. vm_compute. repeat split. Qed.
+Proof.
+  do 4 eexists. split; [vm_compute; reflexivity|]. split; [vm_compute; reflexivity|].
+  vm_compute. repeat split.
+Qed.
 
 (* ---------- what laws 101 and 104 MEAN, and that law 103's e2e half accepts the model ---------- *)
 Theorem law_cli_sound v ns t created :
